@@ -37,3 +37,35 @@ Proof.
   unfold vrun. rewrite <- fold_left_rev_right. induction (rev l) as [|k r IH]; [reflexivity|].
   cbn [fold_right vstk]. rewrite IH. reflexivity.
 Qed.
+
+(* ---- exhaustion is final: once a retry policy has logged OnRetriesExceeded it logs nothing more in that execution ---- *)
+(* the kinds a retry policy logs *)
+Definition verdict_kind (k : evk) : bool :=
+  match k with KPolFailure | KPolSuccess | KAbort | KRetriesExceeded | KRetryScheduled | KRetry => true | _ => false end.
+
+(* the automaton of one position over (kind, position) pairs: Some false = not exhausted, Some true = exhausted, None = a
+   retry-policy event was logged after OnRetriesExceeded *)
+Definition xstep (pos : nat) (k : evk * nat) (s : option bool) : option bool :=
+  match s with
+  | None => None
+  | Some ex =>
+      if Nat.eqb (snd k) pos && verdict_kind (fst k) then
+        if ex then None
+        else match fst k with KRetriesExceeded => Some true | _ => Some false end
+      else Some ex
+  end.
+
+Fixpoint xstk (pos : nat) (l : list (evk * nat)) : option bool :=
+  match l with
+  | [] => Some false
+  | k :: l' => xstep pos k (xstk pos l')
+  end.
+
+
+Definition xrun (pos : nat) (l : list (evk * nat)) : option bool := fold_left (fun s k => xstep pos k s) l (Some false).
+
+Lemma xrun_xstk pos l : xrun pos l = xstk pos (rev l).
+Proof.
+  unfold xrun. rewrite <- fold_left_rev_right. induction (rev l) as [|k r IH]; [reflexivity|].
+  cbn [fold_right xstk]. rewrite IH. reflexivity.
+Qed.
